@@ -83,6 +83,84 @@ type Ctx struct {
 	Vars  []*Term // declared variables, in order
 	vname map[string]*Term
 	memo  map[memoKey]*Term
+	dom   map[int]*[4]uint64 // per 8-bit variable: set of values it may take (facts asserted on this path)
+}
+
+// SetDomain records that the 8-bit variable v only takes values satisfying pred. The
+// caller must have asserted the same fact to the solver.
+func (c *Ctx) SetDomain(v *Term, pred func(b byte) bool) {
+	if v.Op != OpVar || v.Width != 8 {
+		return
+	}
+	d := &[4]uint64{}
+	if old, ok := c.dom[v.ID]; ok {
+		*d = *old
+	} else {
+		for i := range d {
+			d[i] = ^uint64(0)
+		}
+	}
+	for b := 0; b < 256; b++ {
+		if !pred(byte(b)) {
+			d[b/64] &^= 1 << uint(b%64)
+		}
+	}
+	c.dom[v.ID] = d
+}
+
+func (c *Ctx) domHas(v *Term, val uint64) bool {
+	d, ok := c.dom[v.ID]
+	if !ok || val > 255 {
+		return true
+	}
+	return d[val/64]&(1<<uint(val%64)) != 0
+}
+
+// domRange returns the smallest and largest value v may take.
+func (c *Ctx) domRange(v *Term) (lo, hi uint64, ok bool) {
+	d, has := c.dom[v.ID]
+	if !has {
+		return 0, 0, false
+	}
+	lo, hi = 256, 0
+	for b := uint64(0); b < 256; b++ {
+		if d[b/64]&(1<<uint(b%64)) != 0 {
+			if b < lo {
+				lo = b
+			}
+			hi = b
+		}
+	}
+	if lo == 256 {
+		return 0, 0, false
+	}
+	return lo, hi, true
+}
+
+// LearnFact refines variable domains from an asserted formula of the form (= v k) or
+// (not (= v k)).
+func (c *Ctx) LearnFact(t *Term) {
+	neg := false
+	if t.Op == OpNot {
+		neg = true
+		t = t.Args[0]
+	}
+	if t.Op != OpEq {
+		return
+	}
+	a, b := t.Args[0], t.Args[1]
+	if a.IsConst() {
+		a, b = b, a
+	}
+	if a.Op != OpVar || a.Width != 8 || !b.IsConst() {
+		return
+	}
+	k := byte(b.Val)
+	if neg {
+		c.SetDomain(a, func(x byte) bool { return x != k })
+	} else {
+		c.SetDomain(a, func(x byte) bool { return x == k })
+	}
 }
 
 type memoKey struct {
@@ -92,7 +170,7 @@ type memoKey struct {
 }
 
 func NewCtx() *Ctx {
-	c := &Ctx{tab: map[key]*Term{}, nary: map[string]*Term{}, vname: map[string]*Term{}, memo: map[memoKey]*Term{}}
+	c := &Ctx{tab: map[key]*Term{}, nary: map[string]*Term{}, vname: map[string]*Term{}, memo: map[memoKey]*Term{}, dom: map[int]*[4]uint64{}}
 	c.T = c.mk(key{op: OpConst, width: 0, val: 1}, nil)
 	c.F = c.mk(key{op: OpConst, width: 0, val: 0}, nil)
 	return c
@@ -325,6 +403,14 @@ func (c *Ctx) Eq(a, b *Term) *Term {
 	if a.IsConst() {
 		a, b = b, a
 	}
+	if b.IsConst() && a.Op == OpVar && a.Width == 8 {
+		if !c.domHas(a, b.Val) {
+			return c.F
+		}
+		if lo, hi, ok := c.domRange(a); ok && lo == hi && lo == b.Val {
+			return c.T
+		}
+	}
 	// push equality with a constant through ite-trees with constant leaves
 	if b.IsConst() && a.Op == OpIte && constLeafIte(a, 24) {
 		mk := memoKey{op: OpEq, a: a.ID, b: b.ID}
@@ -372,6 +458,29 @@ func (c *Ctx) cmp(op Op, a, b *Term) *Term {
 	}
 	if op == OpUlt && b.IsConst() && b.Val == 0 {
 		return c.F
+	}
+	if (op == OpUlt || op == OpUle) && a.Width == 8 {
+		// unsigned comparisons of a domain-restricted byte with a constant
+		if a.Op == OpVar && b.IsConst() {
+			if lo, hi, ok := c.domRange(a); ok {
+				if (op == OpUlt && hi < b.Val) || (op == OpUle && hi <= b.Val) {
+					return c.T
+				}
+				if (op == OpUlt && lo >= b.Val) || (op == OpUle && lo > b.Val) {
+					return c.F
+				}
+			}
+		}
+		if b.Op == OpVar && a.IsConst() {
+			if lo, hi, ok := c.domRange(b); ok {
+				if (op == OpUlt && a.Val < lo) || (op == OpUle && a.Val <= lo) {
+					return c.T
+				}
+				if (op == OpUlt && a.Val >= hi) || (op == OpUle && a.Val > hi) {
+					return c.F
+				}
+			}
+		}
 	}
 	if op == OpUle && a.IsConst() && a.Val == 0 {
 		return c.T
